@@ -62,12 +62,10 @@ Definition subclass_radd (b a : cls) : bool :=
    expressible (refutations in C04/Refuted.v); the lemmas are proved for every variant. *)
 Record variant := {
   v_frvec_lin : bool;     (* FunctionalRightVectorMult keeps is_linear of its operand *)
-  v_vecsum_field : bool;  (* OperatorVectorSum accepts an operator whose range is the field *)
-  v_real_shortcut : bool  (* Operator.__mul__ rewrites A*a to a*A only for isinstance(a, Real) (open finding:
-                             currently false = also for complex a) *)
+  v_vecsum_field : bool   (* OperatorVectorSum accepts an operator whose range is the field *)
 }.
-Definition variant_old : variant := {| v_frvec_lin := false; v_vecsum_field := false; v_real_shortcut := false |}.
-Definition variant_live : variant := {| v_frvec_lin := true; v_vecsum_field := true; v_real_shortcut := false |}.
+Definition variant_old : variant := {| v_frvec_lin := false; v_vecsum_field := false |}.
+Definition variant_live : variant := {| v_frvec_lin := true; v_vecsum_field := true |}.
 
 Section Model.
 Context {T : Type} `{Num T}.
@@ -240,7 +238,9 @@ Definition mul_c (a : oexpr) (c : T) (rl : bool) : res oexpr :=
     else if olin a then mkFLScal a c else mkFRScal a c
   else match a with
        | ORScal _ a' c' => mkRScal false a' (c' * c)
-       | _ => if olin a && (rl || negb (v_real_shortcut vt)) then rmul_c a c else mkRScal false a c
+       | _ => if olin a && rl then rmul_c a c else mkRScal false a c
+           (* the rewrite A*a -> a*A only for scalars of a REAL Python type (52720c8): is_linear promises
+              no more than real-linearity *)
        end.
 
 (* A * v *)
